@@ -197,7 +197,7 @@ Ticked == clock' = clock
 NewJob(p, bad) ==
   LET v == CurDef(p) IN
   [p |-> p, ver |-> cfgv[p], epoch |-> epoch[p], bad |-> bad, present |-> TRUE,
-   started |-> FALSE, completed |-> FALSE, canceled |-> FALSE, lastErr |-> "",
+   started |-> FALSE, completed |-> FALSE, canceled |-> FALSE, lastErr |-> "", creq |-> FALSE,
    timer |-> IF v.delay > 0 THEN "armed" ELSE "none", el |-> 0, startEl |-> 0,
    rep |-> [t \in 1 .. Len(v.tasks) |-> [status |-> "waiting", errored |-> FALSE, canceled |-> FALSE]]]
 
@@ -279,9 +279,10 @@ Cancel(j) ==
           /\ ack' = [ack EXCEPT ![j] = AckRec(j)]
           /\ UNCHANGED cancelPending
      ELSE /\ cancelPending' = cancelPending \cup {j}
+          /\ job' = [job EXCEPT ![j].creq = TRUE]
           /\ last' = [NoLast EXCEPT !.op = "cancel", !.j = j]
           /\ ack' = [ack EXCEPT ![j] = AckRec(j)]
-          /\ UNCHANGED <<job, sched, waitList>>
+          /\ UNCHANGED <<sched, waitList>>
   /\ ev' = [k |-> "Op", j |-> j, t |-> 0, o |-> ""]
   /\ Step([op |-> "cancel", p |-> 0, j |-> j, t |-> 0, o |-> "", v |-> 0, bad |-> "none"])
   /\ PreNext /\ Ticked
@@ -378,7 +379,8 @@ Finish(j, t, o) ==
          failFast == hardFail /\ Def(p) /\ ~CurDef(p).cont
      IN /\ stage' = [stage EXCEPT ![j][t] = IF hardFail THEN "error" ELSE "done"]
         /\ job' = [job EXCEPT ![j].rep[t] = [status |-> IF @.canceled THEN "canceled" ELSE IF hardFail THEN "error" ELSE "done",
-                                              errored |-> hardFail, canceled |-> @.canceled]]
+                                              errored |-> hardFail, canceled |-> @.canceled],
+                               ![j].creq = @ \/ (failFast /\ ~job[j].canceled /\ ~job[j].completed)]
         /\ sched' = [sched EXCEPT ![j].lastErr = IF hardFail THEN "exit" ELSE @]
         \* cancelJobInternal from HandleTaskChange: the job is started, not completed; no-op if already canceled
         /\ cancelPending' = IF failFast /\ ~job[j].canceled /\ ~job[j].completed THEN cancelPending \cup {j} ELSE cancelPending
@@ -394,8 +396,9 @@ Finish(j, t, o) ==
 
 JobComplete(j) ==
   /\ j \in Jobs /\ sched[j].pc = "exited" /\ running[j] = {}
-  /\ LET err == IF sched[j].lastErr # "" THEN sched[j].lastErr
-                ELSE IF sched[j].cancelled THEN "canceled" ELSE ""     \* repaired D4
+  /\ LET allFinished == \A t \in Tasks(j) : job[j].rep[t].status = "done"
+         err == IF sched[j].lastErr # "" THEN sched[j].lastErr
+                ELSE IF job[j].creq /\ ~allFinished THEN "canceled" ELSE ""     \* repaired D4
          S0 == [Bundle EXCEPT !.job[j].completed = TRUE, !.job[j].lastErr = err,
                               !.job[j].canceled = (err = "canceled"), !.sched[j].pc = "done"]
      IN ApplyBundle(Dequeue(S0, job[j].p))
